@@ -24,7 +24,7 @@ CLAIMED["C11"] = dict(
     category="model_checking",
     engine="bfs+loom",
     technique="explicit-state BFS of the real State cache to closure + loom (DPOR) interleaving exploration of the real Mutex<Cache> + exhaustive (threads, chunksize, npoints) enumeration of par_pure",
-    text="All reachable cache states of a State (any history length) are enumerated on the real object with the invariant 'every returned, cached and derived value equals the fresh-state value' checked in every state and every discovered state re-derived by replaying its trace on a fresh State; all interleavings of 2-3 threads issuing order-dependent request pairs (and clone) on one shared State are explored with loom on the library's own mutex; every par_pure configuration is compared with the sequential diagram and the stand-alone solves.",
+    text="All reachable cache states of a State (any history length) are enumerated on the real object with the invariant 'every returned, cached and derived value equals the fresh-state value' checked in every state and every discovered state re-derived by replaying its trace on a fresh State; all interleavings of 2-3 threads issuing order-dependent request pairs (and clone) on one shared State are explored with loom on the library's own mutex, with a scheduling point inside every critical section (hook H5) so that a lock holder can be preempted and try_lock-style fast paths are reached; every par_pure configuration is compared with the sequential diagram and the stand-alone solves.",
     design_ref="§4.2, §4.4, §5 C11",
     note="Trusted base: loom's model of std::sync::Mutex; the BFS canonical key (sorted cache map incl. value bits; hit/miss counters are never read by getters). rayon's work-stealing schedule is not controllable: par_pure schedules are uncontrolled, only its configuration space is enumerated. Continuous state variables: a few fixed states per model.",
 )
@@ -39,7 +39,7 @@ CLAIMED["C01"] = dict(
 CLAIMED["C08"] = dict(
     category="exploration",
     technique="bounded-exhaustive lattice enumeration of every implementation pair x state lattice x derivative keys; differential oracle",
-    text="Every pair of code paths named in the property (functional-as-bulk vs equation of state for every FMT version, enum/ideal-gas wrappers vs bare model, ePC-SAFT without ions vs PC-SAFT, SAFT-VRQ Mie FH0 vs SAFT-VR Mie, closed-form vs iterative association on every dual part, from_segments vs combined record, Peng-Robinson vs the SI closed form) is evaluated on the whole state lattice for A, p, s, mu and all second-order keys and compared pairwise. Added pairs: six synthetic association schemes with unequal site counts or C sites (pure and with hexane), gc-PC-SAFT with the rehner2023 binary segment records; one C site = half of one A + one B site for PC-SAFT and SAFT-VR Mie.",
+    text="Every pair of code paths named in the property (functional-as-bulk vs equation of state for every FMT version, enum/ideal-gas wrappers vs bare model, ePC-SAFT without ions vs PC-SAFT, SAFT-VRQ Mie FH0 vs SAFT-VR Mie, closed-form vs iterative association on every dual part, from_segments vs combined record, Peng-Robinson vs the SI closed form) is evaluated on the whole state lattice for A, p, s, mu and all second-order keys and compared pairwise. Added pairs: six synthetic association schemes with unequal site counts or C sites (pure and with hexane), gc-PC-SAFT with the rehner2023 binary segment records; one C site = half of one A + one B site for PC-SAFT and SAFT-VR Mie. Record sweep: every pure record of nine shipped PC-SAFT files (gross2001/2002/2005/2006, loetgeringlin2018, eller2022, rehner2020, esper2023) and a synthetic feature lattice (m in {1,1.6,2,2.6,4.5} x dipole x quadrupole x association x three FMT versions) is compared functional-vs-equation-of-state on a small state lattice.",
     design_ref="§5 C08",
 )
 
@@ -134,7 +134,7 @@ CLAIMED["C16"] = dict(
 CLAIMED["C17"] = dict(
     category="exploration",
     technique="bounded-exhaustive enumeration of functionals x grids x base profiles x every basis perturbation (segment x bump centre); finite-difference and adjointness oracles on the discretised functional",
-    text="For every functional family, grid type, base profile and every perturbation of the basis (each segment x each Gaussian bump centre of a sub-grid away from the boundary) the Richardson difference of the integrated Helmholtz energy density is compared with the integral of the functional derivative times the perturbation, the adjointness of the weighted-density and functional-derivative convolutions is evaluated without any finite difference through first_partial_derivatives, and the Newton operator (hook H4) applied to the perturbation, including the variation of the bond integrals of chain molecules, is compared with the Richardson difference of the functional derivative itself. Cartesian and periodic grids: 1e-9; curvilinear grids: bands at 10x the intrinsic accuracy of the transforms observed on the pinned tree. Periodic 2-D and 3-D grids (with a periodic slab profile) are part of the lattice.",
+    text="For every functional family, grid type, base profile and every perturbation of the basis (each segment x each Gaussian bump centre of a sub-grid away from the boundary) the Richardson difference of the integrated Helmholtz energy density is compared with the integral of the functional derivative times the perturbation, the adjointness of the weighted-density and functional-derivative convolutions is evaluated without any finite difference through first_partial_derivatives, and the Newton operator (hook H4) applied to the perturbation, including the variation of the bond integrals of chain molecules, is compared with the Richardson difference of the functional derivative itself. Cartesian and periodic grids: 1e-9; curvilinear grids: bands at 10x the intrinsic accuracy of the transforms observed on the pinned tree. Periodic 2-D and 3-D grids (with a periodic slab profile) are part of the lattice. Heterosegmented molecules include branched bond graphs (isobutane, neopentane, 2,3-dimethylbutane) besides linear chains.",
     design_ref="§5 C17",
     note="Trusted base as for the lattice checks. Curvilinear grids (spherical, polar, cylindrical) are only adjoint up to the intrinsic accuracy of their transforms (spherical 4e-7..1e-4, polar up to 1.5e-3), which does not vanish under refinement; the acceptance band there (2e-5..1.2e-3 and 2e-2) is calibrated on the pinned tree and only catches O(1) errors such as a wrong sign, index or partial derivative. Only profiles that are flat at the outer boundary are used on those grids.",
 )
